@@ -180,10 +180,11 @@ type run struct {
 	capHit      bool
 	deadline    time.Time
 	perKey      map[string]int
+	keyCount    map[string]int // exact failing cases per key (in-process and worker evaluations)
 }
 
 func newRun(c *Check, tier string, spaces []Space) *run {
-	r := &run{c: c, tier: tier, spaces: spaces, classes: map[string]uint64{}, hashes: map[uint64]struct{}{}, perKey: map[string]int{}}
+	r := &run{c: c, tier: tier, spaces: spaces, classes: map[string]uint64{}, hashes: map[uint64]struct{}{}, perKey: map[string]int{}, keyCount: map[string]int{}}
 	for _, s := range spaces {
 		r.stats = append(r.stats, spaceStat{Name: s.Name, Size: s.Size})
 	}
@@ -211,6 +212,7 @@ type chunkResult struct {
 	Classes  map[string]uint64 `json:"c,omitempty"`
 	Hashes   []uint64          `json:"h,omitempty"`
 	Failures []Failure         `json:"x,omitempty"`
+	KeyCount map[string]int    `json:"kc,omitempty"` // exact number of failing cases per key
 	Harness  []string          `json:"he,omitempty"`
 }
 
@@ -265,6 +267,10 @@ func evalChunk(spaces []Space, si int, from, to uint64, hb *heartbeat) chunkResu
 		}
 		if !o.OK {
 			perKey[o.Key]++
+			if cr.KeyCount == nil {
+				cr.KeyCount = map[string]int{}
+			}
+			cr.KeyCount[o.Key]++
 			if perKey[o.Key] <= 3 { // keep a few smallest witnesses per key per chunk
 				f := Failure{Space: sp.Name, Index: i, Key: o.Key, Detail: o.Detail}
 				if sp.Describe != nil {
@@ -290,6 +296,9 @@ func (r *run) merge(cr chunkResult) {
 	}
 	for _, h := range cr.Hashes {
 		r.hashes[h] = struct{}{}
+	}
+	for k, n := range cr.KeyCount {
+		r.keyCount[k] += n
 	}
 	for _, f := range cr.Failures {
 		r.perKey[f.Key]++
@@ -834,6 +843,7 @@ func (r *run) coverage() map[string]any {
 		"spaces":                        r.stats,
 		"workers":                       r.workers(),
 		"isolated_workers":              r.c.Isolated,
+		"failing_cases_by_key":          r.keyCount,
 	}
 	if len(r.classes) <= 1 && r.evals > 1 {
 		cov["warning"] = "only one outcome class observed"
